@@ -1173,7 +1173,9 @@ def main():
             if k in ('ForStmt', 'DoStmt', 'SwitchStmt', 'GotoStmt', 'CXXTryStmt', 'CXXForRangeStmt', 'BreakStmt', 'ContinueStmt', 'LabelStmt'):
                 raise Unsupported(f'{k} in {cls}::{method}')
             if k == 'CompoundStmt':
-                raise Unsupported('nested block')
+                # a nested scope: its statements, then a closing leaf (where the scope's guards are released)
+                inner = [stmt(c) for c in n.get('inner', []) if c.get('kind') != 'NullStmt']
+                return f'EIf {q("{")} [' + '; '.join(inner + [f'EStmt {q("}")}']) + '] []'
             return f'EStmt {q(lr.text_of(n).rstrip(";").strip())}'
         body = [c for c in m['inner'] if c['kind'] == 'CompoundStmt'][0]
         parts.append(f'(* ---- statement tree of {cls}::{method} ---- *)\n')
@@ -1190,6 +1192,11 @@ def main():
              ('fx_packetGet', lambda: do_effects('LidarDriverImpl', 'packetGet', S_IMPL)),
              ('fx_packetPut', lambda: do_effects('LidarDriverImpl', 'packetPut', S_IMPL)),
              ('fx_internalProcessPacket', lambda: do_effects('LidarDriverImpl', 'internalProcessPacket', S_IMPL))]
+    S_SQ = 'rs_driver/utility/sync_queue.hpp'
+    jobs += [('fx_sq_push', lambda: do_effects('SyncQueue', 'push', S_SQ)),
+             ('fx_sq_pop', lambda: do_effects('SyncQueue', 'pop', S_SQ)),
+             ('fx_sq_popWait', lambda: do_effects('SyncQueue', 'popWait', S_SQ)),
+             ('fx_sq_clear', lambda: do_effects('SyncQueue', 'clear', S_SQ))]
     jobs += [('gates_msop', lambda: do_gates('Decoder', 'processMsopPkt', 'rs_driver/driver/decoder/decoder.hpp')),
              ('gates_difop', lambda: do_gates('Decoder', 'processDifopPkt', 'rs_driver/driver/decoder/decoder.hpp'))]
     jobs += [('throttle_sites', lambda: do_throttle_sites([('Decoder', 'processMsopPkt'), ('Decoder', 'processDifopPkt'),
